@@ -209,8 +209,12 @@ func (r *Run) Finish() int {
 		fmt.Printf("HARNESS-ERROR property=%s cannot marshal evidence: %v\n", r.ID, err)
 		return 2
 	}
-	os.MkdirAll(filepath.Join(Root, "evidence"), 0o755)
-	if err := os.WriteFile(filepath.Join(Root, "evidence", r.ID+".json"), append(b, '\n'), 0o644); err != nil {
+	evdir := filepath.Join(Root, "evidence")
+	if v := os.Getenv("VERIF_EVIDENCE_DIR"); v != "" {
+		evdir = v
+	}
+	os.MkdirAll(evdir, 0o755)
+	if err := os.WriteFile(filepath.Join(evdir, r.ID+".json"), append(b, '\n'), 0o644); err != nil {
 		fmt.Printf("HARNESS-ERROR property=%s cannot write evidence: %v\n", r.ID, err)
 		return 2
 	}
